@@ -5,6 +5,7 @@ import p_metadata
 import p_geometry
 import p_tracker
 import p_sched
+import p_upload
 
 HOOK_COMMITS = ["ad8b203", "23d7fe8", "8de280d", "16a7335"]
 
@@ -17,6 +18,13 @@ _PS_NOTE = ("Trusted: TLC, the Go harness (gate scheduler, content PRF, projecti
 _B4 = "TLC-enumerated case table (TLA+ decision function over boundary classes) executed on the real code, outcomes checked by TLC against the specification's invariants"
 
 REGISTRY = {
+    "C16": {"run": p_upload.run, "design": "DESIGN.md section 3 C16",
+            "technique": "TLC exhaustive model checking of Upload.tla + TLC-simulated behaviours applied to the real peer handlers with every written message checked",
+            "level": "Upload.tla (interest, choking with counter, request queue with head drop, cancel, upload tick serving/rejecting, eviction) is model-checked "
+                     "exhaustively (2 peers, 8 steps) and simulated to depth 30; the behaviours drive handleMessage/handleEvent/scheduleUpload of real peers over "
+                     "a real piece store; each Piece written must go to a peer that saw Unchoke last, answer a still-pending request of that peer, carry the true "
+                     "bytes of the range from a verified piece; NumUnchoking() must equal the number of peers with amUnchoking set after every step.",
+            "note": "Trusted: TLC, the stepping shims. Congestion re-queue and disconnect paths are outside this binding."},
     "C11": {"run": p_sched.run, "design": "DESIGN.md section 3 C11",
             "technique": "TLC model checking of Sched.tla / Advert.tla / Pex.tla + behaviours and case tables executed on the real peer code with every message written to the wire checked",
             "level": "Requests/cancels: the Sched.tla behaviours (see C09) are applied to the real handlers and every Request/Cancel the peer writes is checked "
